@@ -244,7 +244,7 @@ KF_CmStaleCache(cm, shift, moved) == cm /\ shift # <<0, 0>> /\ moved
 VARIABLES ser, store, out
 qvars == <<ser, store, out>>
 
-NoSeries == <<>>
+NoSeries == [nf |-> 0]
 NoOut    == <<"none">>
 EmptyStore == [i \in {} |-> <<0, <<>>>>]
 
@@ -277,12 +277,12 @@ Answer(s, q) ==
 
 \* a public query: the answer is a function of the series; the series does not change; the only thing the object
 \* remembers is the accumulating dict of whole_tissue_velocity (I)
-Ask(q) == /\ ser # NoSeries /\ q \in Queries(ser) /\ QueryOK(ser, q)
+Ask(q) == /\ ser.nf > 0 /\ q \in Queries(ser) /\ QueryOK(ser, q)
           /\ out' = <<q, Answer(ser, q)>>
           /\ store' = IF q[1] = "wvel" THEN IWholeVelStore(ser, store, q[2] + 1) ELSE store
           /\ UNCHANGED ser
 AskAny == \E q \in Queries(ser) : Ask(q)
 
 \* action property: queries never change the series
-QueriesArePure == [][ser # NoSeries => ser' = ser]_qvars
+QueriesArePure == [][ser.nf > 0 => ser' = ser]_qvars
 =============================================================================
